@@ -135,7 +135,9 @@ type Base struct {
 	Info   map[string]any // ids and accounts the alphabet refers to
 }
 
-func blockTime(h int64) time.Time { return engine.GenesisTime.Add(time.Duration(h-1) * 3 * time.Second) }
+func blockTime(h int64) time.Time {
+	return engine.GenesisTime.Add(time.Duration(h-1) * 3 * time.Second)
+}
 
 var baseMu sync.Mutex
 
@@ -273,7 +275,7 @@ type PathResult struct {
 
 // Deviation selects the map iteration to deviate.
 type Deviation struct {
-	Index int     // -1: canonical replica
+	Index int // -1: canonical replica
 	Value uintptr
 }
 
@@ -288,6 +290,8 @@ type Block struct {
 	// Restart: the node process is restarted before this block — a new application object is constructed on the same
 	// database (everything that was only in memory is gone, everything committed is reloaded).
 	Restart bool
+	// Misbehavior is the evidence CometBFT hands to the application with this block (double signing).
+	Misbehavior []abci.Misbehavior
 }
 
 func signTx(app *band.BandApp, g *TxGen, info map[string]any, seqBump map[string]uint64) ([]byte, error) {
@@ -377,7 +381,7 @@ func runPath(base *Base, blocks []Block, dev Deviation, record bool, pre func(ap
 			}()
 			st.active = true
 			out, err = app.FinalizeBlock(&abci.RequestFinalizeBlock{Height: h, Time: t, Txs: txs, Hash: blockHash(h),
-				DecidedLastCommit: lastCommit(blk.Powers...), ProposerAddress: bandtesting.Validators[int(h)%len(bandtesting.Validators)].PubKey.Address()})
+				DecidedLastCommit: lastCommit(blk.Powers...), Misbehavior: blk.Misbehavior, ProposerAddress: bandtesting.Validators[int(h)%len(bandtesting.Validators)].PubKey.Address()})
 		}()
 		if err != nil {
 			res.Halt = fmt.Sprintf("FinalizeBlock height %d (block %d of path): %v", h, bi, err)
